@@ -16,7 +16,8 @@
 (*   perm    base perm out     permuting records permutes results           *)
 (*   replace base repl pos     position pos becomes a per-record failure,   *)
 (*                             every other result unchanged                 *)
-(*   fault   base faulted reads bound   C16 (see Faulted)                   *)
+(*   fault   base faulted reads bound   C16 (see Fault)                     *)
+(*   distinct x y / equal x y  C15 checksum sensitivity                     *)
 (***************************************************************************)
 EXTENDS Integers, Sequences, TLC, Json, IOUtils
 
@@ -74,7 +75,11 @@ Fault ==
         /\ Ev.sticky                                              \* the terminal error is returned again unchanged (C01)
   /\ UNCHANGED gold
 
-Next == Golden \/ Same \/ Concat \/ Perm \/ Replace \/ Fault
+\* C15: checksums separate raw records that differ in an ingested value, and agree on equal raw records
+Distinct == IsEvent("distinct") /\ Ev.x # Ev.y /\ UNCHANGED gold
+Equal == IsEvent("equal") /\ Ev.x = Ev.y /\ UNCHANGED gold
+
+Next == Golden \/ Same \/ Concat \/ Perm \/ Replace \/ Fault \/ Distinct \/ Equal
 Spec == Init /\ [][Next]_<<l, gold>>
 TraceAccepted == TLCGet("stats").diameter - 1 = Len(Trace)
 =============================================================================
